@@ -166,17 +166,6 @@ theorem tinv_addReactions {k : K} (h : TInv k) (p : Nat) (cap : Option Cap) (f g
     intro q; rw [a4, b4]; rfl
   · exact h
 
-theorem tinv_swap {k : K} (h : TInv k) : TInv (swap k) := by
-  unfold swap
-  split
-  · rename_i hc
-    apply tinv_congr h
-    · rfl
-    · simp [thenJobs, hc]
-    · rfl
-    · intro q; rfl
-  · exact h
-
 theorem tinv_leaveAbrupt {k : K} (h : TInv k) : TInv (leaveAbrupt k) := by
   have hle : ∀ q, live (leaveAbrupt k) q ≤ live k q := by
     intro q; unfold live leaveAbrupt thenJobs; simp
@@ -199,17 +188,17 @@ theorem tinv_popJob {k : K} (h : TInv k) : TInv (popJob k) := by
       simp only []
       apply tinv_congr h
       · rfl
-      · simp only [thenJobs, hc, List.cons_append]
+      · simp only [thenJobs, hc]
         rw [List.filterMap_cons]
         simp [Job.thenP?]
       · rfl
       · intro q; rfl
     | thenable sid p tv tf =>
       simp only []
-      have hj : thenJobs k = p :: (rest ++ k.queue).filterMap Job.thenP? := by
+      have hj : thenJobs k = p :: rest.filterMap Job.thenP? := by
         simp [thenJobs, hc, Job.thenP?]
       have hp : p < k.proms.length := h.wfJ p (by rw [hj]; simp)
-      have hlive : ∀ q, live (createResolvingFunctions { k with cur := rest, ran := k.ran ++ [Job.thenable sid p tv tf] } p) q = live k q := by
+      have hlive : ∀ q, live (createResolvingFunctions { k with jobs := rest, ran := k.ran ++ [Job.thenable sid p tv tf] } p) q = live k q := by
         intro q
         unfold live
         rw [hj]
@@ -237,7 +226,6 @@ theorem tinv_applyOp {k : K} (h : TInv k) (op : KOp) : TInv (applyOp op k) := by
   | callResolve l v look => exact tinv_callResolve h l v look
   | callReject l v => exact tinv_callReject h l v
   | addReactions p cap f g => exact tinv_addReactions h p cap f g
-  | swap => exact tinv_swap h
   | popJob => exact tinv_popJob h
   | leaveAbrupt => exact tinv_leaveAbrupt h
 
